@@ -58,6 +58,9 @@ def run(repo: Repo, chk: Check) -> None:
     relevance(repo, chk)
     routing(repo, chk)
     tsl_affine(repo, chk)
+    from .c19 import stride_canon
+
+    stride_canon(repo, chk, rule="C02.stride-canon")  # the emitted patterns are canonicalised before they reach the streamers
 
 
 # --------------------------------------------------------------------------- offset
@@ -112,6 +115,18 @@ def offset(repo: Repo, chk: Check) -> None:
                    f"the stride is a raw response of an affine map: a layout offset is added to every stride ({ast.unparse(c.args[0])[:100]})")
     if k == 0:
         raise AnalysisError(f"{f.where}: no stride extraction (`.eval(...)` appended to a list) found")
+    # the map whose responses are taken: text of the callee object of the unit-response evaluations
+    maps_used: set[str] = set()
+    for s in fl.calls("append"):
+        c = s.node
+        if isinstance(c, ast.Call) and c.args:
+            cone = fl.cone(c.args[0], s, inline=0)
+            for n in ast.walk(cone):
+                if isinstance(n, ast.Call) and isinstance(n.func, ast.Attribute) and n.func.attr == "eval" and n.args and not _is_zero_list(n.args[0]):
+                    maps_used.add(ast.unparse(norm.canon(norm.primary(fl.cone(n.func.value, s, inline=0)))))
+    for n in ast.walk(f.node):
+        if isinstance(n, ast.Call) and isinstance(n.func, ast.Attribute) and n.func.attr == "eval" and n.args and not _is_zero_list(n.args[0]):
+            maps_used.add(ast.unparse(n.func.value))
     # pointers
     ap = fl.calls("AccessPatternOp")
     if len(ap) != 1:
@@ -126,12 +141,30 @@ def offset(repo: Repo, chk: Check) -> None:
             ok = False
             continue
         cone = fl.cone(a, ap[0], inline=0)
-        dep = bool(_origin_evals(cone))
-        detail.append(f"{nm}: {dep}")
+        origins = _origin_evals(cone)
+        # the origin response must be that of the composed access-to-memory map (the schedule's constant term included), not of the layout alone
+        same_map = [o for o in origins if ast.unparse(norm.canon(norm.primary(fl.cone(o.func.value, ap[0], inline=0)))) in maps_used  # type: ignore[attr-defined]
+                    or ast.unparse(norm.primary(o.func.value)) in maps_used]  # type: ignore[attr-defined]
+        dep = bool(same_map)
+        detail.append(f"{nm}: origin response found={bool(origins)}, of the composed map={dep}")
         ok = ok and dep
     chk.result(ok, "C02.offset", f"{LAYRES}:LayoutResolution:pointers", ap[0].where(),
-               "the operand pointers of the access pattern depend on the response at the origin (layout offset)",
-               f"the layout offset never reaches the base pointers ({', '.join(detail)}): operands with an offset are streamed from the wrong position")
+               "the operand pointers of the access pattern depend on the response at the origin of the composed access-to-memory map (layout offset and the schedule's constant term)",
+               f"the response at the origin of the composed map never reaches the base pointers ({', '.join(detail)}): operands with a layout offset, or whose access pattern starts inside the buffer, are streamed from the wrong position")
+    # flow-sensitive: what is added to an extracted base pointer, judged where it is added
+    adds = [s for s in fl.calls("AddiOp") if s.reachable and len(s.node.args) >= 2 and any(
+        isinstance(n, ast.Call) and callee_name(n) in ("get", "ExtractAlignedPointerAsIndexOp") and "ExtractAlignedPointerAsIndexOp" in ast.unparse(n)
+        for n in ast.walk(fl.cone(s.node.args[0], s, inline=0)))]  # type: ignore[attr-defined]
+    for k_, s in enumerate(adds):
+        cone = fl.cone(s.node.args[1], s, inline=0)  # type: ignore[attr-defined]
+        origins = _origin_evals(cone)
+        good = [o for o in origins if ast.unparse(norm.canon(norm.primary(fl.cone(o.func.value, s, inline=0)))) in maps_used  # type: ignore[attr-defined]
+                or ast.unparse(norm.primary(o.func.value)) in maps_used]  # type: ignore[attr-defined]
+        alien = [o for o in origins if o not in good]
+        chk.result(bool(good) and not alien, "C02.offset", f"{LAYRES}:LayoutResolution:pointer-shift#{k_ + 1}", s.where(),
+                   "the base pointer is moved by the response at the origin of the composed access-to-memory map",
+                   "the base pointer is moved by " + (f"the origin response of `{ast.unparse(alien[0].func.value)[:80]}`" if alien else "a value that is not an origin response")  # type: ignore[attr-defined]
+                   + ", not by that of the composed access-to-memory map: the constant term of the schedule's access pattern (an operand window that starts inside the buffer) is dropped")
     g = repo.func(TSLD, "TiledStridedLayoutAttr.get_affine_map")
     chk.analysed(g.key)
     gfl = Flow(g, repo)
